@@ -140,6 +140,144 @@ def opt_sites(root):
     return out
 
 
+def edit_sites(root):
+    """Sites for tree-level edits below `root` (steps TreeEdit.select understands): ('field', steps, model, property,
+    field) for required / optional node properties, ('rep', steps, model, property, field) for repeated node
+    properties whose wrapper edits the Repeated stored in that field."""
+    from autobean_refactor import models
+    from autobean_refactor.models import base
+    from autobean_refactor.models.internal.repeated import Repeated
+    from autobean_refactor.models.internal import properties as props
+    out = []
+
+    def rec(m, steps):
+        if isinstance(m, base.RawTokenModel) or isinstance(m, (models.NumberAddExpr, models.NumberMulExpr, Repeated)):
+            return
+        fields = treewalk.node_fields(m)
+        names = {k for k, _ in fields}
+        seen = set()
+        for cls in type(m).__mro__:
+            for pname, attr in vars(cls).items():
+                if pname in seen or not pname.startswith('raw_'):
+                    continue
+                seen.add(pname)
+                if getattr(type(m), pname, None) is not attr:
+                    continue
+                fname = getattr(getattr(attr, '_inner_field', None), '_attr', None)
+                if fname not in names:
+                    continue
+                if isinstance(attr, (props.required_node_property, props.optional_node_property)):
+                    out.append(('field', list(steps), m, pname, fname))
+                else:
+                    try:
+                        w = getattr(m, pname)
+                    except Exception:  # noqa
+                        continue
+                    if isinstance(w, props.RepeatedNodeWrapper) and w.repeated is m.__dict__.get(fname):
+                        out.append(('rep', list(steps), m, pname, fname))
+        for k, v in fields:
+            if isinstance(v, Repeated):
+                for i, it in enumerate(v.items):
+                    rec(it, steps + [f'SItem {q(k)} {i}%nat'])
+            elif v is not None:
+                rec(v, steps + [f'SField {q(k)}'])
+
+    rec(root, [])
+    return out
+
+
+def item_edits(ctx, r, text, ac, pool, ecases, emetas):
+    """Real edits on a freshly parsed document for TreeRun.check_ecase: a required / present optional child or an
+    item replaced by a fresh deep copy (TPlug), `raw_xs.insert(i, fresh)` / `append` (TInsert: index 0 of a non-empty
+    list, middle, end, empty list), `raw_xs.pop(i)` / `del raw_xs[i]` (TRemove: first of several, middle, last, only
+    item). Dumped before/after with one Dumper; the C05 statement is evaluated on the document after every edit."""
+    from autobean_refactor.models import base
+    doc = gen_docs.parse_ok(text, ac)
+    if doc is None:
+        return
+    for _k in range(4):
+        top = r.choice([x for x in doc.raw_directives_with_comments if isinstance(x, base.RawTreeModel)] + [doc])
+        sites = edit_sites(top)
+        if not sites:
+            continue
+        for kind, steps, m, pname, fname in sites:
+            if kind == 'rep':
+                key = (type(m).__name__, pname)
+                for it in list(getattr(m, pname))[:2]:
+                    if len(pool.setdefault(key, [])) < 4:
+                        pool[key].append(copy.deepcopy(it))
+        reps = [st for st in sites if st[0] == 'rep']
+        flds = [st for st in sites if st[0] == 'field' and getattr(st[2], st[3]) is not None]
+        want = r.choice(['plug', 'insert', 'insert', 'remove', 'remove'])
+        if want == 'plug' or not reps:
+            cands = flds + [st for st in reps if len(getattr(st[2], st[3]))]
+            if not cands:
+                continue
+            kind, steps, m, pname, fname = r.choice(cands)
+            if kind == 'field':
+                p = steps + [f'SField {q(fname)}']
+                act = lambda: setattr(m, pname, copy.deepcopy(getattr(m, pname)))
+                where = 'field'
+            else:
+                w = getattr(m, pname)
+                i = r.randrange(len(w))
+                p = steps + [f'SItem {q(fname)} {i}%nat']
+                act = lambda: w.__setitem__(i, copy.deepcopy(w[i]))
+                where = 'item'
+            mk = lambda before, p2, after: f'TPlug {before} [{"; ".join(p2)}] {after}'
+            meta_kind = 'plug-' + where
+        else:
+            longer = [st for st in reps if len(getattr(st[2], st[3])) >= 2]
+            kind, steps, m, pname, fname = r.choice(longer if longer and r.random() < 0.6 else reps)
+            w = getattr(m, pname)
+            n = len(w)
+            key = (type(m).__name__, pname)
+            if want == 'insert' or n == 0:
+                if not pool.get(key):
+                    continue
+                donor = copy.deepcopy(r.choice(pool[key]))
+                i = r.choice([0, n, r.randrange(n + 1)] + ([r.randrange(1, n)] * 2 if n >= 2 else []))
+                shape = 'empty' if n == 0 else 'first' if i == 0 else 'end' if i == n else 'middle'
+                if i == n and r.random() < 0.5:
+                    act = lambda: w.append(donor)
+                else:
+                    act = lambda: w.insert(i, donor)
+                mk = lambda before, p2, after: f'TInsert {before} [{"; ".join(p2)}] {q(fname)} {i}%nat {after}'
+                meta_kind = 'insert-' + shape
+            else:
+                i = r.choice([0, n - 1, r.randrange(n)] + ([r.randrange(1, n - 1)] * 2 if n >= 3 else []))
+                shape = 'only' if n == 1 else 'first' if i == 0 else 'last' if i == n - 1 else 'middle'
+                if r.random() < 0.5:
+                    act = lambda: w.pop(i)
+                else:
+                    act = lambda: w.__delitem__(i)
+                mk = lambda before, p2, after: f'TRemove {before} [{"; ".join(p2)}] {q(fname)} {i}%nat {after}'
+                meta_kind = 'remove-' + shape
+            p = steps
+        if r.random() < 0.5 or top is doc:
+            root, pp = top, p
+        else:
+            # the model itself as the root: drop the steps that lead to it
+            root, pp = m, p[len(steps):]
+        d = Dumper()
+        before = d.node(root)
+        meta = {'kind': meta_kind, 'text': text, 'auto_claim': ac, 'class': type(m).__name__, 'property': pname, 'path': pp}
+        try:
+            act()
+        except Exception as e:  # noqa
+            ctx.dist('tree-edit-refused=' + common.exn_name(e))
+            continue
+        after = d.node(root)
+        ecases.append(mk(before, pp, after))
+        emetas.append(meta)
+        ctx.case({'tree-edit': meta_kind, 'class': type(m).__name__, 'property': pname, 'text': text})
+        probs = treewalk.wf_problems(doc, expect_whole_store=True)
+        if probs:
+            ctx.monitor_failure('C05:' + meta_kind.split('-')[0] + '-edit',
+                                f'after {meta_kind} on {type(m).__name__}.{pname}: {probs[0]}', dict(meta, problems=probs[:3]))
+            return
+
+
 def optional_edits(ctx, r, text, ac, pool, ocases, ometas):
     """Real optional-field edits (`m.raw_x = None`, `m.raw_x = fresh value`) on a freshly parsed document, each dumped
     before/after with one Dumper for TreeRun.check_ocase; the C05 statement is evaluated on the whole document after
@@ -211,6 +349,7 @@ def run(ctx: common.Ctx, prop: str):
     cases, metas = [], []
     wcases, wmetas = [], []
     ocases, ometas, opt_pool = [], [], {}
+    ecases, emetas, item_pool = [], [], {}
     n_docs = ctx.scale(60, 500)
     sd.set_load_factor(1000)
     for _ in range(n_docs):
@@ -273,6 +412,7 @@ def run(ctx: common.Ctx, prop: str):
             wcases.append(wcase(d, b, True)); wmetas.append({'kind': 'wf-after-edits', 'text': text, 'history': hist})
             nb = [(p2, m) for p2, m in treewalk.walk(b) if isinstance(m, base.RawTreeModel) and not isinstance(m, Repeated)]
             optional_edits(ctx, r, text, ac, opt_pool, ocases, ometas)
+            item_edits(ctx, r, text, ac, item_pool, ecases, emetas)
         if prop in ('C05', 'C01', 'C15'):
             for _k in range(4):
                 p, x = r.choice(na)
@@ -344,6 +484,18 @@ def run(ctx: common.Ctx, prop: str):
         for i in badw[:3]:
             ctx.fail('corr', 'tree-wf-' + wmetas[i]['kind'],
                      f'the verified well-formedness checker TreeWF.wf_b rejects an implementation state ({wmetas[i]["kind"]})', wmetas[i])
+    if ecases:
+        bade = ctx.run_coq_cases('treeedit', PREAMBLE_OPT, 'ecase', 'check_ecase2', ecases, chunk=10)
+        ctx.count('traces_validated_against_impl', len(ecases) - len(bade))
+        names = {'plug': 'plug_validated', 'insert': 'item_insert_validated', 'remove': 'item_remove_validated'}
+        for i, k in enumerate(emetas):
+            ctx.dist('corr=' + k['kind'])
+            if i not in bade:
+                ctx.count(names[k['kind'].split('-')[0]])
+        for i in bade[:3]:
+            ctx.fail('corr', 'tree-' + emetas[i]['kind'],
+                     f'TreeEdit.plug/insert_item/remove_item and the implementation disagree on {emetas[i]["kind"]} of '
+                     f'{emetas[i]["class"]}.{emetas[i]["property"]}, or a dumped state is not HWF', emetas[i])
     if ocases:
         bado = ctx.run_coq_cases('treeopt', PREAMBLE_OPT, 'ocase', 'check_ocase', ocases, chunk=12)
         n_ok = len(ocases) - len(bado)
